@@ -98,8 +98,8 @@ CLAIMS = {
          "compiled modules, compared with this model (error class, drop multiset, access multiset).", "4 C15", X_NOTE + " serde, serde_json, bincode are modelled by the SeqIn parameter.",
          "Lean 4 theorems over a value-level serde model + correspondence on compiled generated code"),
  "C16": ("C16_clone_equal, C16_panic_safe (a panic in any field's clone drops exactly the clones built so far), C16_clone_from (target = clone "
-         "of source, each previous droppable value dropped once) over the value-level model with the field types' Clone as a parameter. Tie: "
-         "generator IR + channel X: clone / clone_from / clone with an injected panic at a random field on compiled modules, then mutation and "
+         "of source, each previous droppable value dropped once), C16_clone_from_panic_safe (a panic in a field's clone during clone-assignment: the fields before it assigned and their previous values dropped once, the others untouched) over the value-level model with the field types' Clone as a parameter. Tie: "
+         "generator IR + channel X: clone / clone_from / clone and clone_from with an injected panic at a random field on compiled modules, then mutation and "
          "drop of either side, compared with the model and an independent ledger.", "4 C16", X_NOTE,
          "Lean 4 theorems over a value-level clone model + correspondence on compiled generated code"),
  "C17": ("C17_denote (for type syntax trees of any depth: rewriting does not change the canonical long form), C17_idem, C17_short_long (short and "
